@@ -55,6 +55,10 @@ def cases(ctx):
     # deterministic corpus aimed at one mechanism: a box smaller than a coarse leaf, many small CPU domains
     for i in range(120 if ctx.tier == "quick" else 4000):
         out.append({"id": f"adv{i}", "kind": "load", "i": i, "fixed": True, "adversarial": True})
+    # ... and boxes exactly one coarsest-leaf cell wide, misaligned with the coarse grid, on outputs whose lengths are
+    # exact in floating point (boxlen = unit_l = 1): the width at which the search cubes are half an oct wide
+    for i in range(300 if ctx.tier == "quick" else 6000):
+        out.append({"id": f"cc{i}", "kind": "load", "i": 100000 + i, "fixed": True, "adversarial": True, "mode": "coarse-cell"})
     for i in range(n):
         out.append({"id": f"r{i}", "kind": "load", "i": i})
     m = 60 if ctx.tier == "quick" else 3000
@@ -145,7 +149,7 @@ def make_spec(rng, lowdim=False):
     return spec
 
 
-def make_box(rng, model, exp, res, adversarial=False):
+def make_box(rng, model, exp, res, adversarial=False, force_mode=None):
     """interval predicates on a random subset of axes, centred on a leaf centre"""
     sp = model.spec
     ndim = sp["ndim"]
@@ -163,11 +167,13 @@ def make_box(rng, model, exp, res, adversarial=False):
         j = int(coarse[int(rng.integers(0, len(coarse)))])
         c = exp["pos"][j]
         axes = list(range(ndim))
-        size_mode = rng.choice(["quarter-finest", "finest", "one-finest", "one-finest"])
+        size_mode = rng.choice(["quarter-finest", "finest", "one-finest", "one-finest", "coarse-cell", "coarse-cell"])
+        if force_mode:
+            size_mode = force_mode
     preds = []
     small = True
     for d in axes:
-        if size_mode in ("quarter-finest", "one-finest"):
+        if size_mode in ("quarter-finest", "one-finest", "coarse-cell"):
             w = 0.25 * 2 * h
         elif size_mode == "finest":
             w = 2 * h * float(rng.uniform(0.6, 1.2))
@@ -189,6 +195,15 @@ def make_box(rng, model, exp, res, adversarial=False):
         up = max(w * float(rng.uniform(0.3, 0.7)), need if side > 0 else 0.0) + 1e-6 * h
         dn = max(w - up, need if side < 0 else 0.0) + 1e-6 * h
         lo, hi = c[d] - dn, c[d] + up
+        if size_mode == "coarse-cell":
+            # an interval exactly one coarsest-leaf cell wide, not aligned with the coarse grid (offset by a whole number
+            # of finest cells plus a little, so that no threshold coincides with a cell centre)
+            dxc = 0.5 ** sp["levelmin"]
+            nfine = int(round(dxc / (2 * h)))
+            k = int(rng.integers(0, nfine))
+            lo = np.floor(c[d] / dxc) * dxc + (k - nfine // 2) * 2 * h + 0.013 * h
+            lo = min(max(lo, -0.25), 1.0)
+            hi = lo + dxc
         if size_mode == "one-finest" and not is_finest:
             # the leaf's centre at one end of the interval and exactly one finest-level centre (c +- h) inside it
             lo, hi = (c[d] - 0.05 * h, c[d] + 1.02 * h) if side > 0 else (c[d] - 1.02 * h, c[d] + 0.05 * h)
@@ -221,6 +236,10 @@ def _load(case, ctx, res):
                     ordering="hilbert", bound_style=str(rng.choice(["octs", "equal", "tiny", "random"])),
                     style=str(rng.choice(["needle", "random"])), refine_prob=float(rng.uniform(0.1, 0.4)), max_octs=300)
         spec["levelmax"] = spec["levelmin"] + int(rng.integers(2, 4))
+        if case.get("mode") == "coarse-cell":
+            spec.update(boxlen=1.0, unit_l=1.0, levelmin=int(rng.choice([2, 2, 3])), ncpu=int(rng.choice([12, 24, 32, 48, 64])),
+                        bound_style=str(rng.choice(["equal", "random", "octs"])))
+            spec["levelmax"] = spec["levelmin"] + int(rng.integers(1, 3))
     model = rs.build(spec)
     preds0 = []
     L = None
@@ -229,7 +248,7 @@ def _load(case, ctx, res):
         preds0.append({"var": "level", "op": "<=", "value": k})
         L = sel.level_cap(preds0, spec["levelmax"])
     exp_all = rs.expected_mesh(model, lmax=L)
-    box, size_mode = make_box(rng, model, exp_all, res, adversarial=adv)
+    box, size_mode = make_box(rng, model, exp_all, res, adversarial=adv, force_mode=case.get("mode"))
     preds = preds0 + box
     if rng.random() < 0.3 and not adv:
         col = sel.model_column(model, exp_all, "density")
